@@ -48,6 +48,8 @@ def gen_points(rng):
         bc = round(rng.uniform(0.05, 1.2), 4)
         if rng.random() < 0.5:
             m = round(rng.uniform(0.2, 4.5), 3)
+            if rng.random() < 0.25:
+                m = gen.pick(rng, [0.5, 0.7, 0.9, 0.95, 1.0, 1.05, 1.2, 1.5, 2.0, 2.5, 3.0])   # exactly ON a table node
             if m in used:
                 continue
             used.add(m)
